@@ -174,7 +174,7 @@ def relativize(argv):
     return out, old
 
 
-def run_cli(argv, capture_stdout=True, stale=True, tty_stderr=None):
+def run_cli(argv, capture_stdout=True, stale=True, tty_stderr=None, closed_stderr=None):
     import gaftools.__main__ as gm
 
     _CASE["n"] += 1
@@ -222,9 +222,16 @@ def run_cli(argv, capture_stdout=True, stale=True, tty_stderr=None):
         # interactive use: standard error is a terminal (standard output still is a file or a pipe)
         err.isatty = lambda: True
         STALE["stderr_is_a_terminal_runs"] += 1
+    if closed_stderr is None:
+        closed_stderr = not tty_stderr and hdraw % 11 == 0
     if capture_stdout:
         sys.stdout = out
     sys.stderr = err
+    if closed_stderr:
+        # started with file descriptor 2 closed (`2>&-`, some daemon / cron wrappers): the interpreter
+        # then has sys.stderr = None; logging and argparse cope with that, print(file=None) means stdout
+        sys.stderr = None
+        STALE["stderr_closed_runs"] += 1
     try:
         try:
             rv = gm.main([str(a) for a in argv])
@@ -240,7 +247,7 @@ def run_cli(argv, capture_stdout=True, stale=True, tty_stderr=None):
             code = e.code
             if code is None or code == 0:
                 res = Outcome("ok", 0)
-            elif code == 2 and "usage:" in err.getvalue():
+            elif code == 2 and ("usage:" in err.getvalue() or (closed_stderr and not any(lv in ("ERROR", "CRITICAL") for lv, _m in lh.records))):
                 res = Outcome("usage", 2, err.getvalue()[-300:])
             else:
                 errs = [m for lv, m in lh.records if lv in ("ERROR", "CRITICAL")]
